@@ -60,7 +60,8 @@ def strategy(shapes, kinds=None, extra=None, far_mean=False, sharp=False):
             Dy = case["Dy"] = Dx
             ratio = draw(st.sampled_from([1e-10, 1e-14]))
             c = draw(gen.cond_params(kind, Rc, Dx, Dx, 10.0))
-            c.pop("past_Sigma0", None)
+            for k_ in ("past_Sigma0", "M_int_dtype", "_structure"):
+                c.pop(k_, None)
             if "M" in c:
                 c["M"] = draw(gen.spd(Rc, Dx, kappa=10.0, lam_lo=0.5, lam_hi=1.0))
             c["Sigma"] = np.asarray(c["Sigma"], float) * ratio * sx
@@ -74,6 +75,10 @@ def strategy(shapes, kinds=None, extra=None, far_mean=False, sharp=False):
             d = draw(gen.arr((Rx, Dx), 0.5, 1.5)) * np.where(draw(gen.arr((Rx, Dx), -1, 1)) < 0, -1.0, 1.0)
             case["px"]["mu"] = np.asarray(case["px"]["mu"], float) + off * d
             case["far_mean"] = off
+        if not case.get("far_mean") and not case.get("unit_scale") and not case["c"].get("f32_net") and draw(st.sampled_from([False] * 11 + [True])):
+            # dtype regime: the mean of p(x) is integer-valued and passed as an INTEGER array (float covariance); not combined
+            # with a single-precision network (JAX promotes int64 with float32 to float32: the user's own precision choice)
+            case["px"] = dict(case["px"], mu=np.round(np.asarray(case["px"]["mu"], float)), mu_int_dtype=True)
         if kind != "nn" and not case.get("sharp") and draw(st.sampled_from([False] * 7 + [True])):
             # coincidence between arguments: the first observation lies exactly on the predicted mean of the first point
             Mn, bn, _ = gen.cond_np(case["c"])
@@ -90,7 +95,7 @@ def strategy(shapes, kinds=None, extra=None, far_mean=False, sharp=False):
 def labels(case):
     combo = "(1,1)" if case["Rc"] == 1 and case["Rx"] == 1 else ("(1,n)" if case["Rc"] == 1 else "(n,1)")
     reg = "Dx>Dy" if case["Dx"] > case["Dy"] else ("Dx=Dy" if case["Dx"] == case["Dy"] else "Dx<Dy")
-    return [f"kind={case['kind']}", f"combo={combo}", reg, f"ctor={case['c'].get('ctor')}", f"unit_scale={case.get('unit_scale', 1.0):g}"] + (["far_mean"] if case.get("far_mean") else []) + (["sharp_observation"] if case.get("sharp") else []) + (["y_on_predicted_mean"] if case.get("y_on_mean") else [])
+    return [f"kind={case['kind']}", f"combo={combo}", reg, f"ctor={case['c'].get('ctor')}", f"unit_scale={case.get('unit_scale', 1.0):g}"] + (["far_mean"] if case.get("far_mean") else []) + (["sharp_observation"] if case.get("sharp") else []) + (["y_on_predicted_mean"] if case.get("y_on_mean") else []) + (["px_mean_integer_dtype"] if case["px"].get("mu_int_dtype") else [])
 
 
 def nontrivial(case):
